@@ -3,7 +3,7 @@
    current /repo sources (coq/Gen/Gen_C10_schemas.v), so every theorem mentioning them is re-checked
    against what dump_raw / read_raw / Serialize / Deserialize say now. *)
 From Coq Require Import String List ZArith QArith.
-Require Import IPV.C10.Raw IPV.C10.RawSpec IPV.C10.RawProofs IPV.C10.RawLevels IPV.C10.Serial IPV.C10.Copy IPV.C10.RawFinal.
+Require Import IPV.C10.Raw IPV.C10.RawSpec IPV.C10.RawProofs IPV.C10.RawLevels IPV.C10.Serial IPV.C10.Copy IPV.C10.Extra IPV.C10.RawFinal.
 Require Import IPV.Gen.Gen_C10_schemas.
 Import ListNotations.
 Open Scope string_scope.
@@ -109,3 +109,17 @@ Theorem dump_covers_copy_path :
            ("cxxKineticsComp", "dump:moles_of_reaction", "not-dumped") ] = true.
 Proof. exact dump_defects_known. Qed.
 Print Assumptions dump_covers_copy_path.
+
+(* the option matcher of the model is "first table entry that starts with the lower-cased token"
+   (CParser::find_option with exact = false), and None means no entry starts with it *)
+Theorem option_first_prefix_match : forall item vopts i,
+    find_option item vopts = Some i ->
+    (exists e, nth_error vopts i = Some e /\ String.prefix (lower item) e = true)
+    /\ forall j e, (j < i)%nat -> nth_error vopts j = Some e -> String.prefix (lower item) e = false.
+Proof. exact find_option_first_match. Qed.
+Print Assumptions option_first_prefix_match.
+
+Theorem option_no_match : forall item vopts,
+    find_option item vopts = None -> forall e, In e vopts -> String.prefix (lower item) e = false.
+Proof. exact find_option_none. Qed.
+Print Assumptions option_no_match.
